@@ -295,6 +295,10 @@ def get_max_advance(world: World, sim: SimRunner, until: int) -> int:
     """
     ancs_next_steps: List[Time] = []
     for anc_sim, distance in sim.triggering_ancestors.items():
+        if anc_sim.current_step is not None:
+            # The ancestor is performing this step right now; it is not
+            # in its next_steps anymore but its output can still reach us.
+            ancs_next_steps.append((anc_sim.current_step + distance).time)
         if anc_sim.next_steps:
             ancs_next_steps.append((anc_sim.next_steps[0] + distance).time)
 
@@ -466,6 +470,13 @@ def advance_progress(sim: SimRunner, world: World):
         pre_sim.next_steps[0] + distance
         for pre_sim, distance in sim.triggering_ancestors.items()
         if pre_sim.next_steps
+    ]
+    # A step that an ancestor is performing right now has already been
+    # removed from its next_steps, but its output can still trigger us.
+    pre_sim_induced_progress += [
+        pre_sim.current_step + distance
+        for pre_sim, distance in sim.triggering_ancestors.items()
+        if pre_sim.current_step is not None
     ]
 
     next_step_progress: List[TieredTime] = [sim.next_steps[0]] if sim.next_steps else []
